@@ -148,6 +148,27 @@ Proof. rewrite iac_phasor_is_model. apply phasor_time_roundtrip_gen. Qed.
 Theorem ac_source_args : (vac_arg_amp, vac_arg_phase, vac_arg_omega) = (0, 1, 2)%nat /\
                          (iac_arg_amp, iac_arg_phase, iac_arg_omega) = (0, 1, 2)%nat.
 Proof. split; reflexivity. Qed.
+(* ---- ACChecker._is_sum_ac: merging two terms of one frequency ------------------- *)
+(* every branch of the case analysis must yield the phasor x + j y, where x + j y is the
+   sum of the two terms' phasors A1 e^{j p1} + A2 e^{j p2} *)
+Definition ampsel_val (a : ampsel) (x y : K) : K := match a with AmpX => x | AmpY => y end.
+Definition branch_phasor (b : ampsel * Z) (x y : K) : cx K := cscale (ampsel_val (fst b) x y) (qturn (snd b)).
+Theorem sum_xy_is_phasor_sum (A1 c1 s1 A2 c2 s2 : K) :
+  Cx (gen_sum_x A1 c1 s1 A2 c2 s2) (gen_sum_y A1 c1 s1 A2 c2 s2) = cadd (cscale A1 (Cx c1 s1)) (cscale A2 (Cx c2 s2)).
+Proof. apply cx_eq; cbn; reflexivity. Qed.
+Theorem sum_branch_y0 (x y : K) : y = f0 -> branch_phasor gen_sum_y0 x y = Cx x y.
+Proof. intros ->. unfold branch_phasor, gen_sum_y0, qturn. cbn. apply cx_eq; cbn; ring. Qed.
+Theorem sum_branch_x0 (x y : K) : x = f0 -> branch_phasor gen_sum_x0 x y = Cx x y.
+Proof. intros ->. unfold branch_phasor, gen_sum_x0, qturn. cbn. apply cx_eq; cbn; ring. Qed.
+(* else branch (translator checks it is amp = sqrt(x^2+y^2), phase = atan2(y, x)): under the
+   contract of sqrt/atan2 (r cos(theta) = x, r sin(theta) = y) the phasor is x + j y *)
+Theorem sum_branch_polar (r c s x y : K) : fmul r c = x -> fmul r s = y -> cscale r (Cx c s) = Cx x y.
+Proof. intros <- <-. reflexivity. Qed.
+(* hence the merged phasor reconstructs the sum of the two sinusoids *)
+Theorem sum_time (A1 c1 s1 A2 c2 s2 C S : K) :
+  time_of (Cx (gen_sum_x A1 c1 s1 A2 c2 s2) (gen_sum_y A1 c1 s1 A2 c2 s2)) C S =
+  fadd (time_of (cscale A1 (Cx c1 s1)) C S) (time_of (cscale A2 (Cx c2 s2)) C S).
+Proof. rewrite sum_xy_is_phasor_sum. apply time_add. Qed.
 End Ph.
 
 Print Assumptions ac_is_s_at_jw_Z.
@@ -155,3 +176,6 @@ Print Assumptions ac_is_s_at_jw_Y.
 Print Assumptions leaf_Z_textbook.
 Print Assumptions phasor_time_roundtrip_gen.
 Print Assumptions vac_roundtrip.
+Print Assumptions sum_branch_y0.
+Print Assumptions sum_branch_x0.
+Print Assumptions sum_xy_is_phasor_sum.
